@@ -8,6 +8,7 @@ import (
 	"fmt"
 	"io"
 	"math"
+	"sync"
 	"time"
 
 	"hash/crc32"
@@ -417,6 +418,9 @@ func parseFilterSection(section []byte) (*BloomFilters, error) {
 		if uint64(length) > uint64(len(rest)) {
 			return nil, fmt.Errorf("bloom filter length %d exceeds section remainder %d", length, len(rest))
 		}
+		if err := validateBloomFilterEncoding(rest[:length]); err != nil {
+			return nil, fmt.Errorf("failed to decode bloom filter: %w", err)
+		}
 		filter := &bloom.BloomFilter{}
 		if _, err := filter.ReadFrom(bytes.NewReader(rest[:length])); err != nil {
 			return nil, fmt.Errorf("failed to decode bloom filter: %w", err)
@@ -446,6 +450,44 @@ func parseFilterSection(section []byte) (*BloomFilters, error) {
 		return nil, fmt.Errorf("bloom filter section has %d trailing bytes", len(rest))
 	}
 	return filters, nil
+}
+
+// bloomBitsetLengthOrder is the byte order the bloom library's bitset uses for
+// its length field (a process-wide setting of that library, big-endian unless
+// the application changed it), learned once from a filter encoded here.
+var bloomBitsetLengthOrder = sync.OnceValue(func() binary.ByteOrder {
+	var buf bytes.Buffer
+	bloom.New(64, 1).WriteTo(&buf)
+	if encoded := buf.Bytes(); len(encoded) >= 24 && encoded[16] == 64 {
+		return binary.LittleEndian
+	}
+	return binary.BigEndian
+})
+
+// validateBloomFilterEncoding checks a serialized bloom filter's header
+// against the bytes that are actually there before the library decodes it.
+// The encoding is [uint64 BE: m][uint64 BE: k][uint64: bitset length in
+// bits][bitset words]; the library allocates the bitset from the length field
+// alone and later reduces hashes modulo m, so a section whose CRC is
+// consistent but whose header is garbage could otherwise force an allocation
+// unrelated to the section's size (or a makeslice panic), a division by zero
+// on the first lookup, or a lookup loop over an absurd hash count.
+func validateBloomFilterEncoding(encoded []byte) error {
+	const headerSize = 24
+	if len(encoded) < headerSize {
+		return fmt.Errorf("bloom filter encoding too small: %d bytes", len(encoded))
+	}
+	m := binary.BigEndian.Uint64(encoded[0:8])
+	k := binary.BigEndian.Uint64(encoded[8:16])
+	bits := bloomBitsetLengthOrder().Uint64(encoded[16:24])
+	words := uint64(len(encoded)-headerSize) / 8
+	if m == 0 || bits != m || k > m {
+		return fmt.Errorf("inconsistent bloom filter header (m %d, k %d, bitset length %d)", m, k, bits)
+	}
+	if uint64(len(encoded)-headerSize)%8 != 0 || m > words*64 || m <= (words-1)*64 {
+		return fmt.Errorf("bloom filter of %d bits does not match its %d encoded bytes", m, len(encoded))
+	}
+	return nil
 }
 
 // ReadDataBlockBloomFilters reads and verifies one data block's filter section
